@@ -79,10 +79,12 @@ SRC_SPECS = [
     dict(_KT_SPEC, lean='evaluate_emission_ktables_w', returns_index=2),
 ]
 
-RULE = ('pickle k-tables (1-20 g-points, weights >= 0 summing to 1, 1-3 molecules sharing the weights; quota with '
+RULE = ('pickle and HDF5 k-tables (1-20 g-points, weights >= 0 summing to 1, 1-3 molecules sharing the weights; quota with '
         'per-molecule wavenumber grids resampled onto the model grid; reuse stream with parameter changes and '
-        'k-table set swaps on one model object) loaded by the '
-        'real PickleKTable/KTableCache; family in {transmission (absorption only or + CIA), emission (absorption, '
+        'k-table set swaps on one model object; session stream: the k-table directory looked at while empty / holding '
+        'another molecule, tables installed, k-mode run, then the interpolation mode changed or taken back through '
+        'OpacityCache().set_interpolation and the pair of runs repeated in the mode in force) loaded by the '
+        'real PickleKTable/HDF5KTable/KTableCache; family in {transmission (absorption only or + CIA), emission (absorption, '
         'optional CIA)}; table kind in {degenerate (identical across g), generic}; opacity regime in {zero, thin, mid, '
         'saturated, mixed}; 1-30 layers, 1-8 wavenumbers, ngauss 1-6; distinct non-trivial = distinct (family, kind, '
         'ng, nlayers, regime, cia) with a column neither transparent nor saturated')
@@ -198,8 +200,11 @@ def gen_case(rng, k, thorough=False):
     # quota: one of several molecules is switched off with the global option `deactive_molecules`
     if len(names) >= 2 and k % 9 == 5:
         spec['deactive'] = [names[-1]]
+    # quota: the container the k-tables are written in and discovered from (blocks of 28 cases cover every family x kind x
+    # regime combination in either container)
+    kfmt = 'hdf5' if (k // 28) % 2 == 1 else 'pickle'
     return dict(family=family, tkind=tkind, regime=regime, tclass=tclass, spec=spec, wn=wn, tables=tables,
-                weights=w, cia=cia, multigrid=bool(ends), grid_ends=ends)
+                weights=w, cia=cia, multigrid=bool(ends), grid_ends=ends, kfmt=kfmt)
 
 
 def xsec_tables(c, how):
@@ -222,7 +227,7 @@ def eval_case(ctx, c, scratch):
                  nwn=len(c['wn']), cia=bool(c.get('cia')), tclass=c.get('tclass'), ngauss=spec['ngauss'])
     case = dict(c, small=small)
     try:
-        ok = E.run_model(kind, spec, c['wn'], c['tables'], c.get('cia'), 'ktables', scratch, w)
+        ok = E.run_model(kind, spec, c['wn'], c['tables'], c.get('cia'), 'ktables', scratch, w, kfmt=c.get('kfmt', 'pickle'))
     except Exception as e:
         ctx.violation('raises:ktables:' + fam, 'k-table run raised %r on a valid input' % (e,), case)
         return
@@ -297,6 +302,8 @@ def judge(ctx, c, case, small, ok, ox, degenerate, kp=''):
     if spec.get('deactive'):
         ctx.bucket('deactive_molecules:set')
     ctx.bucket('grids:' + ('per-molecule' if c.get('multigrid') else 'shared'))
+    ctx.bucket('ktable-container:' + str(c.get('kfmt', 'pickle')))
+    ctx.bucket('interpolation:' + str(c.get('interp') or 'linear'))
     for e_ in c.get('grid_ends') or []:
         ctx.bucket('table-grid-end:' + str(e_))
     predicates(ctx, c, case, ok, ox, degenerate, kp)
@@ -324,8 +331,8 @@ def predicates(ctx, c, case, ok, ox, degenerate, kp=''):
             # cross-section-mode transmittance obtained from the g-th coefficient alone
             w = np.asarray(c['weights'], float)
             try:
-                tg_ = [E.run_model('transmission', c['spec'], c['wn'], xsec_tables(c, g), None, 'xsec')['tau']
-                       for g in range(len(w))]
+                tg_ = [E.run_model('transmission', c['spec'], c['wn'], xsec_tables(c, g), None, 'xsec',
+                                   interp=c.get('interp'))['tau'] for g in range(len(w))]
                 mean = sum(wg * t for wg, t in zip(w, tg_))
                 ctx.bucket('weighted-mean-checked')
                 if not C.close(tk.ravel(), mean.ravel(), rel=1e-8, abs_=1e-300):
@@ -333,9 +340,10 @@ def predicates(ctx, c, case, ok, ox, degenerate, kp=''):
                                   'exp(-tau_g) of the per-g cross-section runs', case, dict(k=tk, mean=mean))
             except Exception as e:
                 ctx.violation(kp + 'raises:xsec:transmission', 'per-g cross-section run raised %r' % (e,), case)
-        if not degenerate and not c.get('cia'):
+        if not degenerate and not c.get('cia') and (c.get('interp') or 'linear') == 'linear':
             # Jensen: transmittance >= transmittance of the weight-averaged coefficient (absorption only: with a
-            # second contribution the tau > 10 early exit may skip it in one run and not in the other)
+            # second contribution the tau > 10 early exit may skip it in one run and not in the other; linear mode: the
+            # cross-section run interpolates the TABLE of averaged coefficients, which is the averaged opacity only then)
             if np.any(tk < tx * (1 - 1e-8) - 1e-300):
                 ctx.violation(kp + 'transmittance-jensen', 'k-mode transmittance below the transmittance of the '
                               'weight-averaged coefficient', case, dict(k=tk, avg=tx))
@@ -418,7 +426,7 @@ def reuse_case(ctx, c, scratch, nsteps=3):
              tables={nm: dict(t) for nm, t in c['tables'].items()})
     spec = c['spec']
     with E.CacheState():
-        E.install_tables(c['wn'], c['tables'], c.get('cia'), 'ktables', scratch, c['weights'])
+        E.install_tables(c['wn'], c['tables'], c.get('cia'), 'ktables', scratch, c['weights'], kfmt=c.get('kfmt', 'pickle'))
         try:
             m = E.build_model(kind, dict(spec))
             m.model()
@@ -441,7 +449,7 @@ def reuse_case(ctx, c, scratch, nsteps=3):
                     for t in c['tables'].values():
                         kc = np.asarray(t['kcoeff'], float)
                         t['kcoeff'] = kc * 10 ** rng.uniform(-0.5, 0.5, size=(1, 1, kc.shape[2], 1))
-                E.install_tables(c['wn'], c['tables'], c.get('cia'), 'ktables', scratch, w2)
+                E.install_tables(c['wn'], c['tables'], c.get('cia'), 'ktables', scratch, w2, kfmt=c.get('kfmt', 'pickle'))
             elif p == 'star_temperature':
                 spec['ts'] = float(rng.uniform(3000, 9000))
                 m.star.temperature = spec['ts']
@@ -517,7 +525,7 @@ def mode_switch_case(ctx, c, scratch):
             first = E.observe_model(m, kind)
             seq = [('ktables', c['tables']), ('xsec', xs)]
             for mode, tabs in seq:
-                E.install_tables(c['wn'], tabs, c.get('cia'), mode, scratch, c['weights'])
+                E.install_tables(c['wn'], tabs, c.get('cia'), mode, scratch, c['weights'], kfmt=c.get('kfmt', 'pickle'))
                 used = E.observe_model(m, kind)
                 fresh = E.observe_model(E.build_model(kind, dict(spec)), kind)
                 ctx.bucket('mode-switch:%s:to-%s' % (fam, mode))
@@ -534,10 +542,73 @@ def mode_switch_case(ctx, c, scratch):
                           % (e,), case)
 
 
+INTERP_SEQS = [[None, 'exp'], ['linear', 'exp', 'linear'], ['exp', 'linear'], ['exp', None], [None, 'exp', None]]
+
+
+def interp_session_case(ctx, c, scratch):
+    """ONE session (one process-wide configuration and cache state): the k-tables are installed and discovered under a
+    first temperature-interpolation mode and a k-mode model is run; then the mode is changed through the public
+    OpacityCache().set_interpolation (None = taken back to the default) WITHOUT touching the files, and a fresh k-mode model
+    is run again.  Every step is judged by the full set of comparisons and predicates against the cross-section run on the
+    same numbers in the mode now in force (degenerate tables must reproduce it in either mode)."""
+    from taurex.cache import OpacityCache
+    fam, spec = c['family'], c['spec']
+    kind = 'transmission' if fam == 'transmission' else 'emission'
+    degenerate = all(np.all(np.asarray(t['kcoeff'], float) == np.asarray(t['kcoeff'], float)[..., :1])
+                     for t in c['tables'].values())
+    with E.CacheState():
+        if c.get('prescan'):
+            # the k-table directory was already looked at in this session (as a chemistry does when it is built) while it was
+            # empty / held another molecule's table; the tables of the case arrive afterwards
+            from taurex.cache.ktablecache import KTableCache
+            t0 = next(iter(c['tables'].values()))
+            other = {} if c['prescan'] == 'empty' else {'SO2': (t0['tg'], t0['pg'], np.asarray(t0['kcoeff'], float),
+                                                               c['wn'] if t0.get('wn') is None else t0['wn'], c['weights'])}
+            E.write_ktables(scratch, other, c.get('kfmt', 'pickle'))
+            E.use_ktables(scratch)
+            KTableCache().find_list_of_molecules()
+            ctx.bucket('session:prescan:' + str(c['prescan']))
+        for step, im in enumerate(c['interp_seq']):
+            case = dict(c, interp=im or 'linear', session=dict(step=step, seq=c['interp_seq']))
+            small = dict(family=fam, tkind=c.get('tkind'), regime=c.get('regime'), ng=len(c['weights']),
+                         nlayers=spec['nlayers'], nwn=len(c['wn']), cia=bool(c.get('cia')), kfmt=c.get('kfmt'),
+                         interp=im, session_step=step, seq=c['interp_seq'])
+            case['small'] = small
+            try:
+                if step == 0:
+                    E.install_tables(c['wn'], c['tables'], c.get('cia'), 'ktables', scratch, c['weights'],
+                                     kfmt=c.get('kfmt', 'pickle'), interp=im)
+                else:
+                    OpacityCache().set_interpolation(im)
+                ok = E.observe_model(E.build_model(kind, dict(spec)), kind)
+            except Exception as e:
+                ctx.violation('session:raises:ktables:' + fam, 'k-table run raised %r after the interpolation mode was set to '
+                              '%r in a running session' % (e, im), case)
+                return
+            try:
+                ox = E.run_model(kind, spec, c['wn'], xsec_tables(c, 'first' if degenerate else 'avg'), c.get('cia'), 'xsec',
+                                 interp=im or 'linear')
+            except Exception as e:
+                ctx.violation('session:raises:xsec:' + fam, 'cross-section run raised %r on a valid input' % (e,), case)
+                return
+            ctx.bucket('session:%s:step%d:%s' % (c.get('kfmt'), step, im))
+            judge(ctx, case, case, small, ok, ox, degenerate, kp='session:')
+
+
 def run(ctx):
     validate_transk(ctx)
     scratch = tempfile.mkdtemp(prefix='verif_c20_')
     try:
+        # sessions first: their cases carry their own history (a stored failing case replays in a fresh process)
+        for k in range(ctx.n(40, 800)):
+            # families / kinds / regimes enumerated as in the main stream; tables positive (both modes are defined)
+            c = gen_case(ctx.rng, k, thorough=False)
+            if c['regime'] == 'zero':
+                continue
+            c['kfmt'] = ['pickle', 'hdf5'][(k // 4) % 2]
+            c['interp_seq'] = INTERP_SEQS[(k // 8) % len(INTERP_SEQS)]
+            c['prescan'] = [None, 'empty', 'other'][(k // 2) % 3]
+            interp_session_case(ctx, c, scratch)
         for k in range(ctx.n(320, 11000)):
             eval_case(ctx, gen_case(ctx.rng, k, thorough=not ctx.quick), scratch)
         for k in range(ctx.n(60, 1000)):
@@ -552,9 +623,19 @@ def run(ctx):
 
 
 def replay(ctx, case):
-    case = dict(case)
+    case = dict(case.get('case', case))
     case.pop('small', None)
     case.pop('reuse', None)       # a reuse-stream case replays as a fresh run on the final parameter values
+    if case.get('session'):
+        # a session case replays as the whole session (every step judged again)
+        case.pop('session', None)
+        case.pop('interp', None)
+        scratch = tempfile.mkdtemp(prefix='verif_c20_')
+        try:
+            interp_session_case(ctx, case, scratch)
+        finally:
+            shutil.rmtree(scratch, ignore_errors=True)
+        return
     if case.pop('mode_switch', None):
         scratch = tempfile.mkdtemp(prefix='verif_c20_')
         try:
